@@ -292,9 +292,9 @@ impl Model for C01Model {
         if let Some(f) = &out.fatal {
             return vec![("fatal".to_string(), f.clone())];
         }
-        // (1) triggered tasks done: everything reachable must validate and
-        // the payloads must be right; publication points that no certificate
-        // refers to any more may linger until their CA's next refresh.
+        // (1) triggered tasks done - safety: everything reachable must
+        // validate and no payload may be extra; files and payloads of CAs that
+        // did not have their periodic refresh yet may lag behind.
         let mut v = self.check_state(w, hdr, true);
         if !v.is_empty() {
             return v;
@@ -342,7 +342,11 @@ impl C01Model {
                 Some(i) => &uri[..=i],
                 None => uri.as_str(),
             };
-            if lenient_orphans && !reachable_dirs.contains(dir) {
+            // before the refresh round files may linger (safety only);
+            // afterwards only those of CAs that are really cut off
+            if lenient_orphans
+                || (!reachable_dirs.contains(dir) && orphan_is_legit(w, uri))
+            {
                 hdr.counters[5].fetch_add(1, Ordering::Relaxed);
                 continue;
             }
@@ -359,6 +363,10 @@ impl C01Model {
         }
         hdr.counters[4].fetch_add(r.accepted.len() as u64, Ordering::Relaxed);
         for p in compare_payloads(&r, &self.intent) {
+            // completeness ("missing") is only required after the refresh
+            if lenient_orphans && p.contains("missing") {
+                continue;
+            }
             v.push(("payload".into(), p));
         }
         for p in compare_api_objects(w, &rrdp) {
@@ -366,6 +374,91 @@ impl C01Model {
         }
         v
     }
+}
+
+/// A file in a publication point that no accepted certificate refers to is
+/// tolerated only if the CA that owns the directory still exists, still has
+/// that resource class, and is *cut off*: its parent removed or suspended it,
+/// entitles it to nothing, is gone, or is itself cut off. Such a CA cannot
+/// know until its parent answers again. Files of deleted CAs, of dropped
+/// classes, or of a CA that its parent does entitle are never tolerated.
+pub fn orphan_is_legit(w: &World, uri: &str) -> bool {
+    let Some(rest) = uri.strip_prefix("rsync://localhost/repo/") else {
+        return false;
+    };
+    let mut parts = rest.split('/');
+    let (Some(ca_name), Some(rcn), Some(_file), None) =
+        (parts.next(), parts.next(), parts.next(), parts.next())
+    else {
+        return false;
+    };
+    rc_cut_off(w, ca_name, Some(rcn), 0)
+}
+
+/// Is the given class (or every class) of `ca_name` cut off from the TA?
+fn rc_cut_off(w: &World, ca_name: &str, rcn: Option<&str>, depth: usize) -> bool {
+    if depth > 6 {
+        return false;
+    }
+    let Ok(handle) = std::str::FromStr::from_str(ca_name) else { return false };
+    let Ok(ca) = w.krill.ca_manager().get_ca(&handle) else {
+        return false;
+    };
+    let v = serde_json::to_value(ca.as_ref()).unwrap_or_default();
+    let Some(rcs) = v.get("resources").and_then(|r| r.as_object()) else {
+        return false;
+    };
+    let selected: Vec<&serde_json::Value> = match rcn {
+        Some(n) => match rcs.get(n) {
+            Some(rc) => vec![rc],
+            None => return false, // the class does not exist (any more)
+        },
+        None => rcs.values().collect(),
+    };
+    if selected.is_empty() {
+        return true; // a CA without any class has nothing certified
+    }
+    selected.iter().all(|rc| {
+        let Some(parent) = rc.get("parent_handle").and_then(|p| p.as_str()) else {
+            return true;
+        };
+        if parent == "ta" {
+            return false;
+        }
+        let Ok(ph) = std::str::FromStr::from_str(parent) else { return true };
+        let Ok(pca) = w.krill.ca_manager().get_ca(&ph) else {
+            return true; // parent CA is gone
+        };
+        let Ok(ch) = std::str::FromStr::from_str(ca_name) else { return true };
+        match pca.get_child(&ch) {
+            Err(_) => true, // removed at the parent
+            Ok(details) => {
+                if details.state.is_suspended() {
+                    return true;
+                }
+                let entitled =
+                    details.resources.intersection(&pca.all_resources());
+                if entitled.is_empty() {
+                    return true;
+                }
+                // entitled by a parent class that is itself cut off?
+                let parent_class = rc
+                    .get("parent_rc_name")
+                    .and_then(|n| n.as_str())
+                    .map(|n| {
+                        details
+                            .parent_name_for_rcn(
+                                &rpki::ca::provisioning::ResourceClassName::from(n),
+                            )
+                            .to_string()
+                    });
+                match parent_class {
+                    Some(pc) => rc_cut_off(w, parent, Some(&pc), depth + 1),
+                    None => rc_cut_off(w, parent, None, depth + 1),
+                }
+            }
+        }
+    })
 }
 
 /// strip the host part and mask key-derived names for stable signatures
